@@ -232,7 +232,8 @@ def _run_shard(args):
 def coq_eval(pid, imports, case_type, check_fn, terms, shard=400, tag='cases'):
     """Evaluate check_fn on every case term inside Coq.  Returns (codes, error):
     codes is a list of verdict codes (0 for agreeing cases), error is None or a log."""
-    wd = os.path.join(WORK, pid)
+    # one directory per harness process, so concurrent runs of the same property do not collide
+    wd = os.path.join(WORK, pid, 'run_%d' % os.getpid())
     os.makedirs(wd, exist_ok=True)
     for f in glob.glob(os.path.join(wd, tag + '_*')):
         os.remove(f)
@@ -273,6 +274,14 @@ def coq_eval(pid, imports, case_type, check_fn, terms, shard=400, tag='cases'):
             return None, 'cannot parse verdict list for %s: %s' % (path, m.group(1)[:500])
         for a, b in pairs:
             codes[shards[k][int(a)][0]] = int(b)
+    # drop stale per-process directories of earlier runs (keep the most recent few for inspection)
+    try:
+        runs = sorted(glob.glob(os.path.join(WORK, pid, 'run_*')), key=os.path.getmtime)
+        for old in runs[:-3]:
+            if old != wd:
+                shutil.rmtree(old, ignore_errors=True)
+    except Exception:
+        pass
     for p in paths:  # keep .v for inspection, drop compiled output
         for ext in ('.vo', '.vok', '.vos', '.glob'):
             q_ = p[:-2] + ext
